@@ -1217,6 +1217,25 @@ fn native_spec() {
                 }
             }
         }
+    } else if target == "ignore_errors_recovery" {
+        // C01/C06: with ignore_errors every input yields matches, and those matches carry env values and defaults
+        // wherever the error was raised (in the middle of the line or on the last option's value)
+        std::env::set_var("VERIF_IER_ENV", "from-env");
+        let mk = || Command::new("prog").ignore_errors(true)
+            .arg(Arg::new("num").long("num").value_parser(crate::value_parser!(u8)).action(ArgAction::Set))
+            .arg(Arg::new("name").long("name").action(ArgAction::Set).default_value("dflt"))
+            .arg(Arg::new("envd").long("envd").action(ArgAction::Set).env("VERIF_IER_ENV"));
+        for argv in [vec!["prog", "--num", "abc"], vec!["prog", "--num", "abc", "--bogus"], vec!["prog", "--bogus"], vec!["prog", "--num"], vec!["prog", "--num", "7"], vec!["prog"]] {
+            match mk().try_get_matches_from(argv.clone()) {
+                Ok(m) => {
+                    let (name, envd) = (m.get_one::<String>("name").cloned(), m.get_one::<String>("envd").cloned());
+                    if name.as_deref() != Some("dflt") || envd.as_deref() != Some("from-env") {
+                        println!("SPEC-REPLAY MISMATCH target=ignore_errors_recovery case=ignore_errors {argv:?}: name={name:?} (default dflt) envd={envd:?} (env from-env)");
+                    }
+                }
+                Err(e) => println!("SPEC-REPLAY MISMATCH target=ignore_errors_recovery case=ignore_errors {argv:?}: error {:?} although errors are ignored", e.kind()),
+            }
+        }
     } else if target == "match_arg_error" {
         // C10: the error kind names a rule the input really breaks
         for acws in [false, true] {
